@@ -260,6 +260,9 @@ func (fr *Frame) execInvoke(st *State, cc *ssa.CallCommon, args []Val, pos token
 		fc.Used = true
 		return fr.applyContract(st, fc, cc.Signature(), args, pos, shortKey(key))
 	}
+	if impls := fr.en.closedImpls(recvT, m); len(impls) > 0 {
+		return fr.devirtualise(st, cc, impls, args, pos)
+	}
 	fr.top.note("interface call " + key + " without contract: heap havocked")
 	return fr.havocCall(st, cc.Signature(), m.Name())
 }
@@ -560,4 +563,61 @@ func (fr *Frame) execGo(st *State, x *ssa.Go) {
 		name = fn.Name()
 	}
 	fr.top.note("go " + name + " in " + fr.fn.Name() + ": goroutine body not executed in the spawner; concurrent effects not modelled")
+}
+
+// devirtualise: the interface has unexported methods, so only types of its own package can
+// implement it (closed world). The call is split on the dynamic type tag and each case
+// goes to the concrete method (its contract, or inlined).
+func (fr *Frame) devirtualise(st *State, cc *ssa.CallCommon, impls []implMethod, args []Val, pos token.Pos) []Val {
+	recv := args[0]
+	var sts []*State
+	var rets [][]Val
+	var conds []Term
+	for _, im := range impls {
+		cond := Eq(recv.C[0], IntT(int64(fr.en.typeTag(im.recvT))))
+		b := st.clone()
+		b.pc = fr.ctx.Def("pc", And(st.pc, cond))
+		if b.pc.S == "false" {
+			continue
+		}
+		a2 := append([]Val{scalar(im.recvT, recv.C[1])}, args[1:]...)
+		res := fr.callFunction(b, im.fn, a2, nil, im.fn.Signature, pos)
+		if b.pc.S == "false" {
+			continue
+		}
+		sts = append(sts, b)
+		rets = append(rets, res)
+		conds = append(conds, cond)
+	}
+	// closed world: a non-nil value has one of the known dynamic types
+	fr.assume(st, Or(conds...))
+	if len(sts) == 0 {
+		st.pc = False
+		return fr.freshResults(st, cc.Signature(), "devirt")
+	}
+	pc := st.pc
+	m := fr.mergeStates(sts)
+	n := cc.Signature().Results().Len()
+	out := make([]Val, n)
+	for k := 0; k < n; k++ {
+		cur := rets[len(rets)-1][k]
+		for i := len(rets) - 2; i >= 0; i-- {
+			x, ok := iteVal(sts[i].pc, rets[i][k], cur)
+			if !ok {
+				panic(unsupported("cannot merge devirtualised results"))
+			}
+			cur = x
+		}
+		if cur.K == KNormal {
+			nc := make([]Term, len(cur.C))
+			for i := range cur.C {
+				nc[i] = fr.ctx.Def("dv", cur.C[i])
+			}
+			cur.C = nc
+		}
+		out[k] = cur
+	}
+	*st = *m
+	st.pc = pc
+	return out
 }
